@@ -447,12 +447,13 @@ def r5(ctx):
             ctx.check(reads == want_reads, R, f"{lab}:stride", m, fn, f"record k is read at k * repeat_length (the announced stride): {want_reads}", str(reads))
             ctx.check(lb in cs, R, f"{lab}:stride-lower-bound", m, fn, f"repeat_length < {size} raises DecodeError before any record is read (every decoding path has `{lb}`)", f"path conditions {cs}"[:300])
     # AT4: fixed record size S, message_length // S records at S*k, length must be a multiple of S
-    for mod, cls, msgcls, layout in (
-        ("x2B_group_status", "GroupStatusDecoder", "GroupStatusMessage", [("_STRUCT", 0)]),
-        ("x2D_ac_status", "AcStatusDecoder", "AcStatusMessage", [("_STRUCT", 0)]),
-        ("x37_ac_timer_status", "AcTimerStatusDecoder", "AcTimerStatusMessage", [("_TIMER_STATE_STRUCT", 0), ("_TIMER_STATE_STRUCT", 2)]),
+    for gen_, mod, cls, msgcls, layout in (
+        ("at4", "x2B_group_status", "GroupStatusDecoder", "GroupStatusMessage", [("_STRUCT", 0)]),
+        ("at4", "x2D_ac_status", "AcStatusDecoder", "AcStatusMessage", [("_STRUCT", 0)]),
+        ("at4", "x37_ac_timer_status", "AcTimerStatusDecoder", "AcTimerStatusMessage", [("_TIMER_STATE_STRUCT", 0), ("_TIMER_STATE_STRUCT", 2)]),
+        ("at5", "x1FFF11_ac_ability", "AcAbilityDecoder", "AcAbilityMessage", [("_STRUCT", 0)]),
     ):
-        m = ctx.repo.module(f"pyairtouch.at4.comms.{mod}")
+        m = ctx.repo.module(f"pyairtouch.{gen_}.comms.{mod}")
         fn, paths = _record_exits(ctx, m, cls, msgcls)
         size = ctx.repo.try_fold(m, m.get_const_expr("_TIMER_STATUS_REPEAT_SIZE")) if mod == "x37_ac_timer_status" else _fmt_of(ctx, m, "_STRUCT").size
         ctx.require(isinstance(size, int), f"{m.relpath}: record size not foldable")
@@ -463,7 +464,7 @@ def r5(ctx):
             cnt = OF.lfmt(loops[0].count) if len(loops) == 1 and loops[0].count is not None else None
             reads = sorted((e[1], repr(e[2])) for e in loops[0].emits if e[0] == "read") if len(loops) == 1 else None
             ok = len(loops) == 1 and not direct and mult in cs and cnt in (f"1/{size}*ML", f"fd(ML,{size})") and reads == want_reads
-            ctx.check(ok, R, f"at4.{mod}.{cls}:records", m, fn, f"message_length / {size} records, record k read at {size}*k ({want_reads}); a length that is not a multiple of {size} is rejected", f"count {cnt}, reads {reads}, when {cs}"[:300])
+            ctx.check(ok, R, f"{gen_}.{mod}.{cls}:records", m, fn, f"message_length / {size} records, record k read at {size}*k ({want_reads}); a length that is not a multiple of {size} is rejected", f"count {cnt}, reads {reads}, when {cs}"[:300])
 
 
 # ------------------------------------------------------------------------------------------ R6 strings
@@ -539,6 +540,29 @@ def r6(ctx):
             bad = f"decode_c_string({raw!r}) = {got!r}, expected {want!r}"
             break
     ctx.check(bad is None, R, "encoding.decode_c_string", em, fn, "everything before the first NUL, decoded as UTF-8 (8 witnesses, stale bytes after the terminator included)", bad or "")
+    # name bytes that are not UTF-8 have no reading: the payload is rejected, never decoded to the text of different bytes
+    bad = None
+    for raw in (b"Bedroom\xc3", b"Caf\xe9 1\0\0", b"\x80abc", b"ab\xff\0cd"):
+        try:
+            got = Mini(ctx.repo, em, {}).function_value(fn, {pv: raw})
+        except Unsupported as ex:
+            raise AnalysisError(f"{em.relpath}: decode_c_string left the evaluable fragment: {ex}")
+        if not (isinstance(got, tuple) and len(got) == 2 and got[0] == "raise"):
+            bad = f"decode_c_string({raw!r}) = {got!r}, expected a decoding error"
+            break
+    ctx.check(bad is None, R, "encoding.decode_c_string:strict", em, fn, "bytes before the first NUL that are not valid UTF-8 are refused (4 witnesses: truncated character, Latin-1 byte, lone continuation byte, 0xFF)", bad or "")
+    from ..q import iter_functions
+    from ..model import walk_no_nested as _wnn
+
+    lenient = []
+    for mm in ctx.repo.modules.values():
+        if ".comms" not in mm.name:
+            continue
+        for qual, f_ in iter_functions(mm):
+            for n_ in _wnn(f_):
+                if isinstance(n_, ast.Call) and isinstance(n_.func, ast.Attribute) and n_.func.attr == "decode" and (any(k.arg == "errors" for k in n_.keywords) or (len(n_.args) >= 2 and not isinstance(n_.args[0], (ast.Name,)) and isinstance(n_.args[1], ast.Constant) and isinstance(n_.args[1].value, str))):
+                    lenient.append((mm, qual, n_))
+    ctx.check(not lenient, R, "comms:text-is-decoded-strictly", lenient[0][0] if lenient else em, lenient[0][2] if lenient else None, "no bytes-to-text conversion in the codecs passes an error handler (errors=...): undecodable text rejects the payload", "; ".join(f"{mm.relpath}:{q}: {norm_text(n_)[:60]}" for mm, q, n_ in lenient[:3]))
     enc = ctx.repo.try_fold(em, em.get_const_expr("STRING_ENCODING"))
     ctx.check(enc == "utf-8", R, "encoding.STRING_ENCODING", em, em.assign_nodes["STRING_ENCODING"], "'utf-8'", repr(enc))
     gm = ctx.repo.module("pyairtouch.at4.comms.x1FFF12_group_names")
